@@ -428,4 +428,71 @@ example : (runTool psample (.describeTopics [2])).2 =
 example : (runTool psample (.describeTopics [2])).1.partIds = [(2, [2, 0, 1])] := by decide
 example : (exec psample (.createPartitions 2 5)).partIds = [(2, [2, 0, 1, 3, 4])] := by decide
 
+/-! ## etcd side of the reads (seeded miss C40-r3-2) -/
+
+/-- read-only etcd operations leave the keyspace — keys, values AND revisions — untouched -/
+theorem Kv.exec_readOnly (kv : Kv) (r : KvReq) (h : r.op.readOnly = true) : kv.exec r = kv := by
+  cases r <;> first | rfl | (simp [KvReq.op, EtcdOp.readOnly] at h)
+
+/-- **any sequence of read-only etcd operations, with any arguments, preserves the revisioned dump** -/
+theorem _root_.KafVerif.C40.etcd_read_ops_preserve_keyspace (kv : Kv) (rs : List KvReq)
+    (h : ∀ r ∈ rs, r.op.readOnly = true) : kv.run rs = kv := by
+  induction rs generalizing kv with
+  | nil => rfl
+  | cons r t ih =>
+    simp only [Kv.run, List.foldl_cons]
+    rw [Kv.exec_readOnly kv r (h r List.mem_cons_self)]
+    exact ih kv (fun r' hr' => h r' (List.mem_cons_of_mem _ hr'))
+
+open KafVerif.Gen.C40 in
+/-- **table obligation** (regenerated on every run from pkg/metadata/etcd_store.go): every Store method some registered
+tool reaches is implemented by `EtcdStore`, issues only read-only etcd operations (through every EtcdStore method /
+package function it reaches) and calls only read-only methods on its cached in-memory snapshot. -/
+theorem _root_.KafVerif.C40.etcd_reads_issue_no_writes :
+    ∀ t ∈ tools, ∀ m ∈ t.calls,
+      (etcdMethods.filter fun f => f.method == m).length = 1 ∧
+      ∀ f ∈ etcdMethods, f.method = m → (f.ops.all EtcdOp.readOnly = true ∧ ∀ i ∈ f.inner, i ∈ readOnly) := by decide
+
+open KafVerif.Gen.C40 in
+/-- the etcd table is not vacuous: all 15 methods are there, the mutators do show write operations, and the reads the
+tools use do reach etcd (`Get`) -/
+theorem _root_.KafVerif.C40.etcd_table_nonvacuous :
+    etcdMethods.length = 15 ∧
+    (etcdMethods.filter fun f => f.ops.any fun o => !o.readOnly).length ≥ 6 ∧
+    (etcdMethods.filter fun f => f.method ∈ readOnly ∧ f.ops.contains .get).length ≥ 5 := by decide
+
+/-- the lookup as it is issues one `Get`, whatever the record's age, so it preserves the keyspace (with revisions) -/
+theorem _root_.KafVerif.C40.etcd_lookup_preserves_keyspace (decode : Nat → Option OffRec) (kv : Kv) (k now : Nat) :
+    kv.run (lookupOffset decode kv k now).1 = kv := rfl
+
+/-- `fetch_offsets` on the etcd store = lookups of any keys at any times: keyspace unchanged -/
+theorem _root_.KafVerif.C40.etcd_fetch_offsets_preserves_keyspace (decode : Nat → Option OffRec) (kv : Kv)
+    (ks : List (Nat × Nat)) :
+    ks.foldl (fun s kt => s.run (lookupOffset decode s kt.1 kt.2).1) kv = kv := by
+  induction ks with
+  | nil => rfl
+  | cons a t ih => simpa [List.foldl_cons, KafVerif.C40.etcd_lookup_preserves_keyspace] using ih
+
+/-- a keyspace with one commit made at t = 100 (value 7 decodes to offset 42) -/
+def kvSample : Kv := { rev := 5, entries := [{ key := 1, value := 7, modRev := 5, createRev := 3, version := 2 }] }
+def decodeSample (v : Nat) : Option OffRec := if v = 7 then some ⟨42, some 100⟩ else none
+
+/-- witness (shape of C40-r3-2): with lazy retention, a lookup long after the commit deletes the record; a lookup soon
+after does not — which is why fresh commits never showed it -/
+theorem _root_.KafVerif.C40.lazy_retention_lookup_changes_keyspace :
+    kvSample.run (lookupOffsetLazy 604800 decodeSample kvSample 1 (100 + 604801)).1 ≠ kvSample ∧
+    kvSample.run (lookupOffsetLazy 604800 decodeSample kvSample 1 (100 + 3600)).1 = kvSample := by decide
+
+/-- witness for the monitor: rewriting a key with IDENTICAL bytes (read-repair / touch) leaves keys and values as they
+were and still changes the revisioned dump — the before/after comparison must include revisions -/
+theorem _root_.KafVerif.C40.rewrite_same_bytes_bumps_revision :
+    (kvSample.put 1 7).plain = kvSample.plain ∧ kvSample.put 1 7 ≠ kvSample := by decide
+
+/-- and in general: a `Put` always advances the store revision -/
+theorem _root_.KafVerif.C40.put_changes_keyspace (kv : Kv) (k v : Nat) : kv.put k v ≠ kv := by
+  intro h
+  have : (kv.put k v).rev = kv.rev := by rw [h]
+  unfold Kv.put at this
+  split at this <;> simp at this
+
 end KafVerif.Mcp
